@@ -357,6 +357,12 @@ func negotiateSession(ctx context.Context, location, origin jid.JID, rw io.ReadW
 		if err != nil {
 			return s, err
 		}
+		// A negotiator that does no I/O that the context could interrupt (a
+		// transport without deadlines, input that was already buffered) must not
+		// turn a canceled context into an established session.
+		if err = ctx.Err(); err != nil {
+			return s, err
+		}
 		if rw != nil {
 			for k := range s.features {
 				delete(s.features, k)
